@@ -193,6 +193,12 @@ const NAMES: [&str; 20] = [
     "a", "b", "c", "m", "f", ".h", ".hd", "g.txt", "x.lz", "y.cms", "z.cmp", "t.bin", "u.bin.lz", "a b", "é.txt", "@E",
     "E", "e_f", "e_y.cms", "lz",
 ];
+/// Unusual but legal file-name characters (on Unix `\\` is an ordinary character).  Glob metacharacters
+/// (`*`, `?`, `[`, `]`) are left out: the code pastes the listed directory into a glob pattern, and the
+/// property's domain excludes them (DESIGN §6 C13 "!").
+const ODD_NAMES: [&str; 14] = [
+    "a\\b.bin", "b.bin", "d\\e", "\\", "x\\", "#h", "100%", "a+b", "it's", "-dash", "ｳﾏ.txt", "日本", "~t", "a,b;c",
+];
 const EXTS: [&str; 5] = ["txt", "lz", "bin", "cms", "cmp"];
 
 struct Table {
@@ -449,6 +455,26 @@ fn history_case(rng: &mut Rng, id: &str, g: &str, lang: &str, nlayers: usize, ma
             names.push(n);
         }
     }
+    // unusual characters: one or two odd names in two cases out of three; in one of six the trio
+    // `a`, `b.bin`, `a\b.bin` (names that differ only by `\` vs `/`)
+    match rng.below(6) {
+        0 | 1 => {}
+        2 => {
+            for n in ["a", "b.bin", "a\\b.bin"] {
+                if !names.contains(&n) {
+                    names.push(n);
+                }
+            }
+        }
+        _ => {
+            for _ in 0..rng.range(1, 2) {
+                let n = *rng.pick(&ODD_NAMES);
+                if !names.contains(&n) {
+                    names.push(n);
+                }
+            }
+        }
+    }
     // always one name with the game's compressed suffix
     let sfx = if is_lz10_game(g) { *rng.pick(&["y.cms", "z.cmp"]) } else { *rng.pick(&["x.lz", "u.bin.lz"]) };
     if !names.contains(&sfx) {
@@ -577,10 +603,19 @@ fn listing_case(rng: &mut Rng, id: &str, g: &str, lang: &str) -> Vec<String> {
             ("emp".to_string(), Ent::Dir),
             ("d/e.txt".to_string(), Ent::Dir),
         ]),
-        build_tree(&[("d/e".to_string(), f(1)), ("a b/é.txt".to_string(), f(2)), ("d/.txt".to_string(), f(0))]),
+        build_tree(&[
+            ("d/e".to_string(), f(1)),
+            ("a b/é.txt".to_string(), f(2)),
+            ("d/.txt".to_string(), f(0)),
+            ("a\\b.bin".to_string(), f(1)),
+            ("a/b.bin".to_string(), f(2)),
+            ("d\\e/x\\y.txt".to_string(), f(1)),
+            ("#h%+'".to_string(), f(0)),
+            ("-x/~y".to_string(), f(1)),
+        ]),
     ];
     let mut l = vec![new_line(id, g, lang, &s0, &arch, &trees)];
-    let dirs = ["", ".", "d", "d/", "d/e", "d/.hd", "f", "g", "emp", "nope", "nope/x", "q", "a b", "d/e/x.txt", "./d"];
+    let dirs = ["", ".", "d", "d/", "d/e", "d/.hd", "f", "g", "emp", "nope", "nope/x", "q", "a b", "d/e/x.txt", "./d", "a", "d\\e", "-x"];
     let pats = ["~", "*", "**/*", "*.txt", "**/*.txt", "*.lz", "**/*.lz", "e/*", "d/*", ".hd/*", "f/*", "nope/*"];
     for d in dirs {
         for p in pats {
@@ -1173,6 +1208,13 @@ pub fn run_line(st: &mut super::State, line: &str) -> String {
     format!("{} {} |{}", id, out, walks(&s.roots))
 }
 
+/// Directory name of layer `i` of a case: multi-byte UTF-8 in four cases out of five (the layer root is
+/// part of every path the implementation globs and strips again).
+fn layer_dir_name(id: &str, i: usize) -> String {
+    let stems = ["l", "层", "données", "ウマ", "mixé层x"];
+    format!("{}{}", stems[(fnv(&format!("{}@{}", id, i)) % 5) as usize], i)
+}
+
 fn run_new(st: &mut super::State, f: &[&str]) -> String {
     let id = f[0];
     let g = f[2];
@@ -1184,7 +1226,7 @@ fn run_new(st: &mut super::State, f: &[&str]) -> String {
     std::fs::create_dir_all(&base).unwrap();
     let mut roots = Vec::new();
     for i in 0..n {
-        let r = base.join(format!("l{}", i));
+        let r = base.join(layer_dir_name(id, i));
         std::fs::create_dir_all(&r).unwrap();
         let tree = f[7 + i];
         if tree != "-" {
@@ -1207,19 +1249,20 @@ fn run_new(st: &mut super::State, f: &[&str]) -> String {
     for (i, r) in roots.iter().enumerate() {
         let b = base.display().to_string();
         let k = fnv(&format!("{}#{}", id, i)) % 7;
+        let ln = layer_dir_name(id, i);
         let sp = match k {
-            1 => format!("{}/l{}/../l{}", b, i, i),
-            2 => format!("{}/./l{}", b, i),
+            1 => format!("{}/{}/../{}", b, ln, ln),
+            2 => format!("{}/./{}", b, ln),
             3 => format!("{}/", r),
-            4 => format!("{}//l{}", b, i),
+            4 => format!("{}//{}", b, ln),
             5 => {
                 let link = base.join(format!("s{}", i));
-                match std::os::unix::fs::symlink(format!("l{}", i), &link) {
+                match std::os::unix::fs::symlink(&ln, &link) {
                     Ok(()) => link.display().to_string(),
                     Err(_) => r.clone(),
                 }
             }
-            6 => format!("{}/l{}/./../l{}/", b, i, i),
+            6 => format!("{}/{}/./../{}/", b, ln, ln),
             _ => r.clone(),
         };
         given.push(sp);
